@@ -304,6 +304,13 @@ theorem mergeGrid_id {tol : α} {s : List α} (hne : s ≠ []) (hg : Gap tol s) 
   obtain ⟨s0, s', rfl⟩ := List.exists_cons_of_ne_nil hne
   simp [mergeGrid, mergeDesc_id _ hg, fixFirst]
 
+theorem setLast_of_getLast : ∀ (l : List α) (d : α), l.getLast? = some d → setLast d l = l
+  | [], d, h => by simp at h
+  | [a], d, h => by simp at h; simp [setLast, h]
+  | a :: b :: l, d, h => by
+    have hl : (b :: l).getLast? = some d := by simpa [List.getLast?_cons_cons] using h
+    simp [setLast, setLast_of_getLast (b :: l) d hl]
+
 /-! ### C. the run loop of one observable -/
 
 /-- The times an observable is effectively tested against. -/
